@@ -16,7 +16,7 @@ from vlib.runner import Ctx, Failure
 LEVEL = "exploration"
 RULE = (
     "scenario = 1..3 subroutines with up to three create_epr/recv_epr requests (keep and measure, 1..3 pairs, same or "
-    "different sockets / remote nodes, optional reuse of one virtual id across the pairs of a request with qfree between, id arrays of later subroutines at the address a completed request used) "
+    "different sockets / remote nodes, responses in netqasm-native or qlink-interface 1.0 format incl. instances of classes derived from the qlink response classes, or 2..3 subroutines of one application in progress at once (switching while blocked in wait_all), optional reuse of one virtual id across the pairs of a request with qfree between, id arrays of later subroutines at the address a completed request used) "
     "followed by wait_all / wait_any / wait_single and classical filler; schedule = choice sequence delivering 0..k in-flight "
     "responses before every instruction and >=1 inside a blocked wait; per (remote, purpose, role) responses arrive in "
     "request and pair order, receiver-side responses may precede recv_epr.  Thorough additionally enumerates all delivery "
@@ -32,6 +32,87 @@ ASSUMPTIONS = [
 ]
 SHARDS = {"quick": 4, "thorough": 16}
 OK = 10
+
+
+# the format in which a response reaches the controller (one entry per delivered response, cyclic; empty = all native):
+# 0 netqasm-native namedtuple; 1 qlink-interface 1.0 dataclass (Bell state as plain index); 2 the same with the Bell state as
+# the qlink enum; 3 an instance of a dataclass derived from the qlink response class (one more field); 4 an instance of a plain
+# subclass of it (Bell state as enum)
+WIRE_NAMES = {0: "native", 1: "qlink-1.0", 2: "qlink-1.0", 3: "qlink-1.0-subclass", 4: "qlink-1.0-subclass"}
+# the same Bell state in the numbering of qlink-interface and of netqasm (matched by name)
+BELL_QLINK_TO_NETQASM = {0: 0, 1: 3, 2: 1, 3: 2}  # PHI_PLUS, PHI_MINUS, PSI_PLUS, PSI_MINUS
+
+
+def st_wire():
+    return st.one_of(st.just([]), st.lists(st.sampled_from([0, 1, 2, 3, 4]), min_size=1, max_size=6))
+
+
+_QL: Dict[str, Any] = {}
+
+
+def qlink_classes() -> Dict[str, Any]:
+    if not _QL:
+        from dataclasses import dataclass
+
+        import qlink_interface as ql
+
+        @dataclass
+        class StampedKeep(ql.ResCreateAndKeep):
+            produced_at: float = 0.0
+
+        @dataclass
+        class StampedMeasure(ql.ResMeasureDirectly):
+            produced_at: float = 0.0
+
+        class TaggedKeep(ql.ResCreateAndKeep):
+            pass
+
+        class TaggedMeasure(ql.ResMeasureDirectly):
+            pass
+
+        _QL.update({"ql": ql, ("K", 1): ql.ResCreateAndKeep, ("K", 2): ql.ResCreateAndKeep, ("K", 3): StampedKeep, ("K", 4): TaggedKeep,
+                    ("M", 1): ql.ResMeasureDirectly, ("M", 2): ql.ResMeasureDirectly, ("M", 3): StampedMeasure, ("M", 4): TaggedMeasure})
+    return _QL
+
+
+@st.composite
+def st_concurrent(draw):
+    """family: two or three subroutines of ONE application are in progress at the same time; the controller switches between
+    them while they are blocked in a wait (registers are per application, hence shared by them).  Every request is awaited
+    (wait_all, wait_any or wait_single) inside its own subroutine; requests of different subroutines use different (remote, socket, role) queues"""
+    nsub = draw(st.integers(2, 3))
+    keys = draw(st.permutations([(r_, s_, ro) for r_ in (1, 2) for s_ in (0, 1) for ro in ("recv", "create")]))
+    reqs = []
+    subs = []
+    nv = 0
+    for s in range(nsub):
+        mine = []
+        for _ in range(draw(st.sampled_from([1, 1, 2]))):
+            if len(reqs) >= 3:  # the property quantifies over up to three outstanding requests
+                break
+            tp = draw(st.sampled_from(["K", "M", "M"]))
+            n = draw(st.integers(1, 3))
+            if tp == "K" and nv + n > 9:
+                tp = "M"
+            ids = list(range(nv, nv + n)) if tp == "K" else []
+            nv += len(ids)
+            remote, sock, role = keys[s] if draw(st.booleans()) or not mine else keys[nsub + s]
+            mine.append(len(reqs))
+            reqs.append({"role": role, "tp": tp, "n": n, "remote": remote, "sock": sock, "ids": ids, "reuse": False, "sub": s, "wait": draw(st.sampled_from(["all", "all", "single", "any"])),
+                         "spare": draw(st.sampled_from([0, 0, OK])) if role == "create" else 0, "c0": None})
+        ops: List[Any] = [["filler"]] * draw(st.integers(0, 2))
+        for i in mine:
+            ops += [["req", i]] + [["filler"]] * draw(st.integers(0, 1))
+        for i in draw(st.permutations(mine)):
+            if draw(st.integers(0, 3)) == 0:
+                ops += [["waitpair", i, k] for k in range(reqs[i]["n"])]
+            else:
+                ops.append(["wait", i])
+            ops += [["filler"]] * draw(st.integers(0, 1))
+        ops += [["ret", i] for i in mine]
+        subs.append(ops)
+    return {"reqs": reqs, "subs": subs, "schedule": draw(st.lists(st.integers(0, 7), min_size=0, max_size=60)), "purpose_offset": draw(st.sampled_from([0, 1, 7])),
+            "wire": draw(st_wire()), "concurrent": True, "family": "concurrent-subroutines"}
 
 
 @st.composite
@@ -50,7 +131,7 @@ def st_blocked_head(draw):
     ]
     ops: List[Any] = [["req", 0]] + [["filler"]] * draw(st.integers(0, 2)) + [["req", 2]] + [["filler"]] * draw(st.integers(2, 6)) + [["req", 1]] + [["filler"]] * draw(st.integers(0, 3))
     ops += [["waitpair", 0, 0], ["free", 0, 0], ["waitpair", 0, 1], ["wait", 2], ["wait", 1], ["ret", 0], ["ret", 1], ["ret", 2]]
-    return {"reqs": reqs, "subs": [ops], "schedule": draw(st.lists(st.integers(0, 5), min_size=4, max_size=40)), "purpose_offset": draw(st.sampled_from([0, 1])), "family": "blocked-head"}
+    return {"reqs": reqs, "subs": [ops], "schedule": draw(st.lists(st.integers(0, 5), min_size=4, max_size=40)), "purpose_offset": draw(st.sampled_from([0, 1])), "family": "blocked-head", "wire": draw(st_wire())}
 
 
 @st.composite
@@ -67,7 +148,7 @@ def st_reissue(draw):
     ]
     fill = lambda a, b: [["filler"]] * draw(st.integers(a, b))  # noqa: E731
     ops: List[Any] = [["req", 0]] + fill(0, 2) + [["wait", 0]] + fill(0, 1) + [["req", 1]] + fill(0, 4) + [["free", 0, 0]] + fill(0, 2) + [["wait", 1], ["ret", 0], ["ret", 1]]
-    return {"reqs": reqs, "subs": [ops], "schedule": draw(st.lists(st.integers(0, 5), min_size=0, max_size=30)), "purpose_offset": draw(st.sampled_from([0, 1])), "family": "reissue-on-allocated-qubit"}
+    return {"reqs": reqs, "subs": [ops], "schedule": draw(st.lists(st.integers(0, 5), min_size=0, max_size=30)), "purpose_offset": draw(st.sampled_from([0, 1])), "family": "reissue-on-allocated-qubit", "wire": draw(st_wire())}
 
 
 @st.composite
@@ -82,12 +163,14 @@ def st_flood(draw):
         reqs.append({"role": "recv", "tp": tp, "n": 3, "remote": draw(st.sampled_from([1, 2])), "sock": draw(st.sampled_from([0, 1])), "ids": ids, "reuse": False, "sub": 0,
                      "wait": draw(st.sampled_from(["all", "single"])), "spare": 0, "c0": None})
     ops: List[Any] = [["filler"]] * draw(st.integers(5, 8)) + [["req", 0], ["req", 1], ["req", 2], ["wait", 0], ["wait", 1], ["wait", 2], ["ret", 0], ["ret", 1], ["ret", 2]]
-    return {"reqs": reqs, "subs": [ops], "schedule": draw(st.lists(st.sampled_from([2, 2, 2, 1, 0]), min_size=10, max_size=40)), "purpose_offset": draw(st.sampled_from([0, 1])), "family": "flood"}
+    return {"reqs": reqs, "subs": [ops], "schedule": draw(st.lists(st.sampled_from([2, 2, 2, 1, 0]), min_size=10, max_size=40)), "purpose_offset": draw(st.sampled_from([0, 1])), "family": "flood", "wire": draw(st_wire())}
 
 
 @st.composite
 def st_scenario(draw):
-    fam = draw(st.integers(0, 9))
+    fam = draw(st.integers(0, 11))
+    if fam >= 10:
+        return draw(st_concurrent())
     if fam == 3:
         return draw(st_flood())
     if fam <= 1:
@@ -161,7 +244,7 @@ def st_scenario(draw):
             ops.append(["filler"])
         subs.append(ops)
     schedule = draw(st.lists(st.integers(0, 5), min_size=0, max_size=60))
-    scn = {"reqs": reqs, "subs": subs, "schedule": schedule, "purpose_offset": draw(st.sampled_from([0, 1, 1, 7])), "big_fields": draw(st.integers(0, 3)) == 0}
+    scn = {"reqs": reqs, "subs": subs, "schedule": schedule, "purpose_offset": draw(st.sampled_from([0, 1, 1, 7])), "big_fields": draw(st.integers(0, 3)) == 0, "wire": draw(st_wire())}
     if draw(st.integers(0, 2)) == 0:
         # another controller in the same process holds responses it cannot use yet (they arrived before its receive
         # instruction); they are its own business
@@ -295,6 +378,30 @@ class Scheduler:
             resp = LinkLayerOKTypeM(type=ReturnType.OK_M, create_id=rec["create_id"], measurement_outcome=rec["outcome"], measurement_basis=0, directionality_flag=direction,
                                     sequence_number=rec["seq"], purpose_id=r["sock"] + self.stack.purpose_offset, remote_node_id=r["remote"], goodness=rec["goodness"], bell_state=rec["bell"])
         rec["fields"] = [x.value if hasattr(x, "value") else x for x in resp]
+        wire_seq = self.scn.get("wire") or [0]
+        wire = wire_seq[(self.seq - 1) % len(wire_seq)]
+        rec["wire"] = wire
+        if wire:
+            # the same response in the format of qlink-interface 1.0 (possibly an instance of a class derived from the
+            # documented response class); what has to end up in the result array is written down here field by field
+            qc = qlink_classes()
+            ql = qc["ql"]
+            pid = r["sock"] + self.stack.purpose_offset
+            enum_bell = wire in (2, 4)
+            bell_sent = ql.BellState(rec["bell"]) if enum_bell else rec["bell"]
+            bell_stored = BELL_QLINK_TO_NETQASM[rec["bell"]] if enum_bell else rec["bell"]
+            extra = {"produced_at": 0.5 * self.seq} if wire == 3 else {}
+            if r["tp"] == "K":
+                resp = qc[("K", wire)](create_id=rec["create_id"], directionality_flag=direction, sequence_number=rec["seq"], purpose_id=pid, remote_node_id=r["remote"],
+                                       goodness=rec["goodness"], bell_state=bell_sent, logical_qubit_id=rec["phys"], time_of_goodness=3 + 2 * big, **extra)
+                rec["fields"] = [0, rec["create_id"], rec["phys"], direction, rec["seq"], pid, r["remote"], rec["goodness"], 3 + 2 * big, bell_stored]
+            else:
+                basis = self.seq % 5
+                resp = qc[("M", wire)](create_id=rec["create_id"], directionality_flag=direction, sequence_number=rec["seq"], purpose_id=pid, remote_node_id=r["remote"],
+                                       goodness=rec["goodness"], bell_state=bell_sent, measurement_outcome=rec["outcome"], measurement_basis=ql.MeasurementBasis(basis), **extra)
+                rec["fields"] = [1, rec["create_id"], rec["outcome"], basis, direction, rec["seq"], pid, r["remote"], rec["goodness"], bell_stored]
+            if wire == 4:
+                resp.tag = f"link-layer-{self.seq}"
         self.delivered.append(rec)
         self.ex._handle_epr_response(resp)
 
@@ -341,19 +448,26 @@ def run(scn) -> Dict[str, Any]:
             return super()._allocate_physical_qubit(subroutine_id, virtual_address, physical_address)
 
         def _execute_command(self, subroutine_id, command):
+            started_with = None
+            if command.mnemonic in ("wait_all", "wait_any", "wait_single"):
+                # the entries a wait instruction watches are the ones its operands name when the instruction starts, as for
+                # every other instruction (no other subroutine runs between the instructions that load the index / bound
+                # registers and the wait itself; one may run, and write those registers, while the wait is blocked)
+                started_with = self._expand_array_part(self._get_app_id(subroutine_id), command.entry if command.mnemonic == "wait_single" else command.slice)
             yield from super()._execute_command(subroutine_id, command)
             if command.mnemonic in ("wait_all", "wait_any", "wait_single"):
                 app = self._get_app_id(subroutine_id)
+                a, idx = started_with
                 if command.mnemonic == "wait_single":
-                    a, idx = self._expand_array_part(app, command.entry)
                     vals = [self._app_arrays[app][a, idx]]
                     ok = vals[0] is not None
+                    what = f"@{a}[{idx}]"
                 else:
-                    a, idx = self._expand_array_part(app, command.slice)
                     vals = self._app_arrays[app][a, idx]
                     ok = all(v is not None for v in vals) if command.mnemonic == "wait_all" else any(v is not None for v in vals)
+                    what = f"@{a}[{idx.start}:{idx.stop}]"
                 if not ok:
-                    raise Failure(f"wait-resumed-early:{command.mnemonic}", case, f"{command} resumed although its entries are {vals}")
+                    raise Failure(f"wait-resumed-early:{command.mnemonic}", case, f"{command} of subroutine {subroutine_id} was started for {what} and resumed although these entries are {vals}")
                 # a keep pair whose results the program can see is also mapped: the slice and the qubit become visible together
                 ri_ = (a - 2) // 3
                 if (a - 2) % 3 == 0 and 0 <= ri_ < len(scn["reqs"]) and scn["reqs"][ri_]["tp"] == "K":
@@ -410,6 +524,10 @@ def run(scn) -> Dict[str, Any]:
     def mark(kind):
         def f(**kw):
             # the request being executed is the next un-executed one in program order
+            if scn.get("concurrent"):
+                # subroutines interleave: the request is identified by its result array
+                sched.executed_reqs.add((kw["ent_results_array_address"] - 2) // 3)
+                return (orig_create if kind == "c" else orig_recv)(**kw)
             for i in sched.issue_order:
                 if i not in sched.executed_reqs:
                     sched.executed_reqs.add(i)
@@ -420,8 +538,44 @@ def run(scn) -> Dict[str, Any]:
 
     ex._do_create_epr = mark("c")
     ex._do_recv_epr = mark("r")
+    in_progress = {"max": 0, "switches": 0}
     try:
-        for s in range(len(scn["subs"])):
+        if scn.get("concurrent"):
+            # cooperative execution: all subroutines are started; a subroutine runs until it blocks in a wait, then the
+            # choice sequence decides between resuming one of the subroutines and delivering a response
+            sched.current_sub = len(scn["subs"])
+            ex.yield_on_wait = True
+            gens = {s: ex.execute_subroutine(parse_text_subroutine(build_text(scn, s))) for s in range(len(scn["subs"]))}
+            started: set = set()
+            blocked_at: Dict[int, Tuple[int, int]] = {}  # subroutine -> progress stamp when it was last seen blocked
+            last = None
+            while gens:
+                stamp = (ex.steps, len(sched.delivered))
+                options: List[Tuple[str, Any]] = [("step", s) for s in sorted(gens) if blocked_at.get(s) != stamp]
+                options += [("deliver", key) for key in sched.deliverable_keys()]
+                if not options:
+                    raise sim.WouldBlock("every subroutine is blocked and no response is in flight")
+                what, arg = options[sched.choice(len(options))]
+                if what == "deliver":
+                    sched.max_outstanding = max(sched.max_outstanding, sched.outstanding())
+                    sched.deliver_one(arg)
+                    continue
+                if last is not None and last != arg and last in gens:
+                    in_progress["switches"] += 1
+                last = arg
+                started.add(arg)
+                in_progress["max"] = max(in_progress["max"], len([s for s in gens if s in started]))
+                finished = True
+                for y in gens[arg]:
+                    if y == ex.WAITING:
+                        finished = False
+                        break
+                if finished:
+                    del gens[arg]
+                    blocked_at.pop(arg, None)
+                else:
+                    blocked_at[arg] = (ex.steps, len(sched.delivered))
+        for s in range(len(scn["subs"]) if not scn.get("concurrent") else 0):
             sched.current_sub = s
             sub = parse_text_subroutine(build_text(scn, s))
             for _ in ex.execute_subroutine(sub):
@@ -473,7 +627,8 @@ def run(scn) -> Dict[str, Any]:
     for v, p in final.items():
         if um[v] != p:
             raise Failure("unit-module", case, f"virtual qubit {v} maps to {um[v]}, last keep response for it carried physical qubit {p}")
-    return {"early": sched.early, "max_outstanding": sched.max_outstanding, "delivered": len(sched.delivered)}
+    return {"early": sched.early, "max_outstanding": sched.max_outstanding, "delivered": len(sched.delivered), "in_progress": in_progress["max"], "switches": in_progress["switches"],
+            "wires": sorted({WIRE_NAMES[d["wire"]] for d in sched.delivered})}
 
 
 def shard(ctx: Ctx) -> None:
@@ -492,6 +647,11 @@ def shard(ctx: Ctx) -> None:
             labels.append("second-controller-with-waiting-responses")
         if scn.get("family"):
             labels.append("family:" + scn["family"])
+        if info["in_progress"] >= 2:
+            labels.append("subroutines-in-progress>=2")
+        if info["switches"]:
+            labels.append("switched-away-from-a-blocked-subroutine")
+        labels += ["wire:" + w for w in info["wires"]]
         if any(r.get("spare") for r in scn["reqs"]):
             labels.append("create-with-longer-result-array")
         if any(r["reuse"] for r in scn["reqs"]):
